@@ -63,6 +63,15 @@ fn one_case(seed: u64, i: u64) -> CaseOut {
     if origin.is_none() {
         p.items.retain(|it| !matches!(it, Item::Orig(_)));
     }
+    // (sources that will get a byte-order mark in front start with a labelled statement nobody refers to)
+    if i % 31 == 17 {
+        p.items.retain(|it| !matches!(it, Item::Orig(_)));
+        if let Some(Item::Stmt { label, .. }) = p.items.iter_mut().find(|it| matches!(it, Item::Stmt { .. })) {
+            if label.is_none() {
+                *label = Some("start_of_it".to_string());
+            }
+        }
+    }
     // the very first byte of the file starts a statement without operands (no `.orig`, label, comment or
     // blank in front): its text is as much its own as anybody's
     let starts_at_byte_zero = i % 29 == 11;
@@ -105,7 +114,7 @@ fn one_case(seed: u64, i: u64) -> CaseOut {
     if img.origin() as usize + img.words.len() > 0xFE00 {
         out.class("image_crosses_fe00");
     }
-    let lay = if rng.chance(1, 4) || starts_at_byte_zero { Layout::canonical() } else { Layout::random(&mut rng) };
+    let lay = if rng.chance(1, 4) || starts_at_byte_zero || i % 31 == 17 { Layout::canonical() } else { Layout::random(&mut rng) };
     let rendered = render(&p, &lay, &mut rng);
     let text = &rendered.text;
     // a byte-order mark in front (some editors write one): if the assembler takes the file at all, every
